@@ -19,6 +19,9 @@ pub struct DivPt {
     lead_i: bool,
     /// dividend is the exact product divisor * q0 (q0 of degree m)
     multiple: bool,
+    /// complex only: the leading coefficient of the dividend (of q0 for exact multiples) is purely imaginary
+    #[serde(default)]
+    dividend_lead_i: bool,
 }
 pub struct Division;
 
@@ -39,7 +42,11 @@ fn div_point<N: Fld>(p: &DivPt) -> Outcome {
         ed.re[p.n] = lead_int;
         ed.im[p.n] = 0;
     }
-    let eq0 = pattern(p.pat % 4, p.m, N::COMPLEX, 8);
+    let mut eq0 = pattern(p.pat % 4, p.m, N::COMPLEX, 8);
+    if p.dividend_lead_i {
+        eq0.re[p.m] = 0;
+        eq0.im[p.m] = 2 << 10;
+    }
     let (dividend_exact, d) = if p.multiple { (ed.mul(&eq0), ed.to_c()) } else { (eq0.clone(), ed.to_c()) };
     let a = dividend_exact.to_c();
     let pa: Polynomial<N> = mk(&a);
@@ -90,7 +97,7 @@ impl Check for Division {
         "division"
     }
     fn rule(&self) -> String {
-        "dividend degree 0..=40 x divisor degree 0..=20 x 4 patterns x {f64, Complex<f64>} x divisor leading coefficient {0.1,1,-3,50} (complex: also times i) x {pattern dividend, exact multiple divisor*q0}; signature = (shape class, quotient length class, remainder class, field, lead)".into()
+        "dividend degree 0..=40 x divisor degree 0..=20 x 4 patterns x {f64, Complex<f64>} x divisor leading coefficient {0.1,1,-3,50} (complex: also times i) x {pattern dividend, exact multiple divisor*q0} (complex: also with a purely imaginary leading coefficient of the dividend); signature = (shape class, quotient length class, remainder class, field, lead)".into()
     }
     fn axes(&self, t: Tier) -> Value {
         json!({"dividend_degree": t.pick("0..=40 step pattern (0..=12, 15, 20, 27, 33, 40)", "0..=40"), "divisor_degree": t.pick("0..=8, 12, 20", "0..=20"), "patterns": &PATTERNS[..4], "leads": LEADS})
@@ -112,7 +119,10 @@ impl Check for Division {
                                     if multiple && m + n > 40 {
                                         continue;
                                     }
-                                    v.push(DivPt { m, n, pat, complex, lead, lead_i, multiple });
+                                    v.push(DivPt { m, n, pat, complex, lead, lead_i, multiple, dividend_lead_i: false });
+                                    if complex && pat < 2 && lead == 1 {
+                                        v.push(DivPt { m, n, pat, complex, lead, lead_i, multiple, dividend_lead_i: true });
+                                    }
                                 }
                             }
                         }
